@@ -144,6 +144,8 @@ fn attempt_steps(kind: AttemptKind, secs: u16) -> Vec<Step> {
         AttemptKind::CaseSettings => vec![
             Step::Arm { ctx: SCtx::CaseA, secs },
             Step::WriteAcl { ctx: SCtx::CaseA, n: 2 },
+            Step::GroupKeyMap { ctx: SCtx::CaseA, g: 2 },
+            Step::AddGroup { ctx: SCtx::CaseA, g: 2, name: 0 },
             Step::AddWifi { ctx: SCtx::CaseA, n: 3 },
         ],
     }
@@ -302,6 +304,8 @@ fn with_ctx(step: &Step, ctx: SCtx) -> Step {
         Step::UpdateNoc { fab_b, .. } => Step::UpdateNoc { ctx, fab_b },
         Step::AddWifi { n, .. } => Step::AddWifi { ctx, n },
         Step::WriteAcl { n, .. } => Step::WriteAcl { ctx, n },
+        Step::GroupKeyMap { g, .. } => Step::GroupKeyMap { ctx, g },
+        Step::AddGroup { g, name, .. } => Step::AddGroup { ctx, g, name },
         s => s,
     }
 }
@@ -653,6 +657,25 @@ pub fn judge(rep: &mut Report, sc: &Scenario, b: &Built, r: &WorldResult, kv: &c
         .log
         .iter()
         .any(|l| l.index >= b.attempt_start && matches!(l.step, Step::Arm { secs, .. } if secs > 0) && l.success);
+
+    // A step that takes longer than the fail-safe lasts (a controller-side time-out of ~10 s on a
+    // session that does not exist, with an 8 s fail-safe) lets the fail-safe expire in the middle
+    // of the attempt: what follows is ordinary, permanent configuration and not a subject of the
+    // rollback rules. Such a history is not what the scenario claims to be: not judged.
+    {
+        let arm_at = r
+            .log
+            .iter()
+            .find(|l| l.index >= b.attempt_start && matches!(l.step, Step::Arm { secs, .. } if secs > 0) && l.success)
+            .map(|l| l.index);
+        let end = b.trigger_at.unwrap_or(b.steps.len());
+        if let Some(a) = arm_at {
+            if r.log.iter().any(|l| l.index > a && l.index < end && l.dev.failsafe.is_none() && !matches!(l.step, Step::Arm { secs: 0, .. })) {
+                rep.inconclusive("fail-safe-expired-in-the-middle-of-the-attempt");
+                return;
+            }
+        }
+    }
 
     rep.count(&format!("trigger:{:?}:{}", sc.trigger, if completed { "completed" } else { "not-completed" }));
     rep.count(&format!("kind:{:?}", sc.kind));
